@@ -113,14 +113,23 @@ class Connective(Condition):
         await postpone()
         while not self:
             with ExitStack() as stack:
-                for child in self._children:
-                    # we only need to wait for children which
-                    # are not True yet
-                    if child:
-                        continue
+                for child in self.__pending__():
                     stack.enter_context(child.__subscription__())
                 await Hibernate()  # hibernate until a child condition triggers
         return True
+
+    def __pending__(self):
+        """The conditions which are not True yet and may notify us when they are"""
+        for child in self._children:
+            # we only need to wait for children which
+            # are not True yet
+            if child:
+                continue
+            # nested connectives are never notified themselves, only their children
+            if isinstance(child, Connective):
+                yield from child.__pending__()
+            else:
+                yield child
 
     def __repr__(self):
         return f'{self.__class__.__name__}({", ".join(map(repr, self._children))})'
